@@ -267,7 +267,17 @@ def run_check(prop, module, tier, seed):
     if not ok_drv:
         errs = [l for l in log_drv.splitlines() if "error" in l][:6]
         broken.append("model driver does not build: " + " | ".join(errs))
-    res = module.run(tier=tier, seed=seed, driver=driver)
+    try:
+        res = module.run(tier=tier, seed=seed, driver=driver)
+    except subprocess.TimeoutExpired:
+        raise
+    except Exception as exc:  # noqa: BLE001  a crashing harness must not look like a pass
+        import traceback
+        res = Result()
+        res.rule = "harness crashed"
+        res.evaluations = 1
+        broken.append("harness raised " + type(exc).__name__ + ": " + str(exc)[:200] + " | " +
+                      traceback.format_exc().splitlines()[-3].strip()[:200])
     for d in res.corr_diffs[:5]:
         broken.append(f"correspondence {d.get('name')} differs on {json.dumps(d.get('case'), default=str)[:300]}: "
                       f"model={str(d.get('model'))[:200]} impl={str(d.get('impl'))[:200]}")
